@@ -34,7 +34,7 @@ def main() -> int:
     spec_failures, disagreements = [], []
     dist = {"statements": 0, "with_locals": 0, "pools": {}, "per_dialect": {}, "rejected_by_parser": 0}
     n = 70 if quick else 2000
-    stmts = [astgen.gen_stmt(r, r.choice([1, 2, 2])) for _ in range(n)]
+    stmts = astgen.gen_batch(r, n, (1, 2, 2), shapes=20 if quick else 300)
     stmts = [s for s in stmts if astgen.local_names(s)]
     dist["with_locals"] = len(stmts)
     spec = sqltie.spec_strings(stmts)
